@@ -19,6 +19,7 @@
  *       distrm | distrmdepth <depth> | distfail | disthandle <name> <0 report|1 transform|3 release_remove> | mreg <name> <flags> | mset <id> <numaidx> <-|set> <value> | kind <set> <eff> <name> <value>
  *       robj <depth> <idx> <flags> (restrict to that object's cpuset/nodeset) | gobj <depth> <i> <j> | kobj <depth> <idx> <eff> <name> <value>
  *       mseto <id> <numaidx> <depth> <idx> <value> | obs | (depth >= 1000: depth of type depth-1000)
+ *       infoclr <depth> <idx> | tinfoclr | kinfoclr <kind> | kinfo <kind> <name> <value> | udclr <depth> <idx>   (emptied, still allocated arrays)
  *       info <depth> <idx> <name> <value> | tinfo <name> <value> | refresh | allow <flags> | ud <depth> <idx> | tud | cb
  * ASan/LSan verdicts are the process exit code (97/98/96). */
 #define _GNU_SOURCE
@@ -161,6 +162,20 @@ static int apply_op(hwloc_topology_t t, char *op, int *handled)
     return rc;
   }
   if (sscanf(op, "info %d %u %255s %255s", &d, &u, a2, a3) == 4) { hwloc_obj_t o = objat(t, d, u); if (!o) { errno = ENOENT; return -2; } return hwloc_obj_add_info(o, a2, a3); }
+  /* emptied-but-still-allocated arrays: remove every info (array stays allocated, count 0), unset userdata */
+  if (sscanf(op, "infoclr %d %u", &d, &u) == 2) { hwloc_obj_t o = objat(t, d, u); if (!o) { errno = ENOENT; return -2; } rep("removed=%d;", hwloc_modify_infos(&o->infos, HWLOC_MODIFY_INFOS_OP_REMOVE, NULL, NULL)); return 0; }
+  if (!strcmp(op, "tinfoclr")) { rep("removed=%d;", hwloc_modify_infos(hwloc_topology_get_infos(t), HWLOC_MODIFY_INFOS_OP_REMOVE, NULL, NULL)); return 0; }
+  if (sscanf(op, "kinfoclr %u", &u) == 1) {      /* what hwloc-annotate cpukind#N does: infos of the kind through hwloc_cpukinds_get_info */
+    struct hwloc_infos_s *in = NULL; int rc = hwloc_cpukinds_get_info(t, u, NULL, NULL, &in, 0);
+    if (rc < 0 || !in) return -2;
+    rep("removed=%d;", hwloc_modify_infos(in, HWLOC_MODIFY_INFOS_OP_REMOVE, NULL, NULL)); return 0;
+  }
+  if (sscanf(op, "kinfo %u %255s %255s", &u, a2, a3) == 3) {
+    struct hwloc_infos_s *in = NULL; int rc = hwloc_cpukinds_get_info(t, u, NULL, NULL, &in, 0);
+    if (rc < 0 || !in) return -2;
+    return hwloc_modify_infos(in, HWLOC_MODIFY_INFOS_OP_ADD, a2, a3);
+  }
+  if (sscanf(op, "udclr %d %u", &d, &u) == 2) { hwloc_obj_t o = objat(t, d, u); if (!o) { errno = ENOENT; return -2; } o->userdata = NULL; return 0; }
   if (sscanf(op, "tinfo %255s %255s", a2, a3) == 2) return hwloc_modify_infos(hwloc_topology_get_infos(t), HWLOC_MODIFY_INFOS_OP_ADD, a2, a3);
   if (!strcmp(op, "refresh")) return hwloc_topology_refresh(t);
   if (sscanf(op, "allow %lu", &fl) == 1) return hwloc_topology_allow(t, NULL, NULL, fl);
